@@ -218,6 +218,97 @@ impl Prop for C12 {
         out
     }
 
+    fn enumerate(tier: Tier, ctx: &mut Ctx) -> (u64, Vec<(Case, Vec<Violation>)>) {
+        // structural families whose fixed point needs many sweeps
+        let sizes: &[usize] = if tier == Tier::Thorough { &[4, 20, 70, 130, 300] } else { &[4, 20, 70, 130] };
+        let all = vec![ExtraPass::Available, ExtraPass::EcallTermination, ExtraPass::Liveness];
+        let mut n = 0;
+        let mut fails = vec![];
+        for kind in 0..3 {
+            for size in sizes {
+                let mut lines: Vec<Line> = vec![label("main")];
+                match kind {
+                    // blocks laid out last-to-first: a value defined in the first executed block is
+                    // used in the last one, across `size` backward jumps
+                    0 => {
+                        lines.push(ins("li", vec![r(9), i(7)]));
+                        lines.push(ins("j", vec![l(&format!("b{}", size - 1))]));
+                        for k in 0..*size {
+                            lines.push(label(&format!("b{k}")));
+                            lines.push(ins("addi", vec![r(5), r(5), i(1)]));
+                            if k == 0 {
+                                lines.push(ins("mv", vec![r(10), r(9)]));
+                                lines.push(ins("li", vec![r(17), i(1)]));
+                                lines.push(ins("ecall", vec![]));
+                                lines.push(ins("li", vec![r(17), i(10)]));
+                                lines.push(ins("ecall", vec![]));
+                            } else {
+                                lines.push(ins("j", vec![l(&format!("b{}", k - 1))]));
+                            }
+                        }
+                    }
+                    // nested counted loops
+                    1 => {
+                        let d = (*size).min(40);
+                        lines.push(ins("li", vec![r(9), i(1)]));
+                        for k in 0..d {
+                            lines.push(ins("li", vec![r(5), i(k as i64)]));
+                            lines.push(label(&format!("l{k}")));
+                        }
+                        for k in (0..d).rev() {
+                            lines.push(ins("addi", vec![r(9), r(9), i(1)]));
+                            lines.push(ins("addi", vec![r(5), r(5), i(-1)]));
+                            lines.push(ins("bnez", vec![r(5), l(&format!("l{k}"))]));
+                        }
+                        lines.push(ins("mv", vec![r(10), r(9)]));
+                        lines.push(ins("li", vec![r(17), i(93)]));
+                        lines.push(ins("ecall", vec![]));
+                    }
+                    // a chain of diamonds with a stack slot carried through
+                    _ => {
+                        lines.push(ins("addi", vec![r(2), r(2), i(-8)]));
+                        lines.push(ins("li", vec![r(9), i(3)]));
+                        lines.push(ins("sw", vec![r(9), m(0, 2)]));
+                        for k in 0..*size {
+                            lines.push(ins("beqz", vec![r(9), l(&format!("e{k}"))]));
+                            lines.push(ins("addi", vec![r(9), r(9), i(1)]));
+                            lines.push(ins("j", vec![l(&format!("j{k}"))]));
+                            lines.push(label(&format!("e{k}")));
+                            lines.push(ins("addi", vec![r(9), r(9), i(2)]));
+                            lines.push(label(&format!("j{k}")));
+                        }
+                        lines.push(ins("lw", vec![r(10), m(0, 2)]));
+                        lines.push(ins("add", vec![r(10), r(10), r(9)]));
+                        lines.push(ins("li", vec![r(17), i(93)]));
+                        lines.push(ins("ecall", vec![]));
+                    }
+                }
+                let case = Case {
+                    lines,
+                    extra: all.clone(),
+                    info: WildInfo {
+                        back_branches: *size,
+                        ..Default::default()
+                    },
+                };
+                n += 1;
+                let mut c = Ctx::default();
+                let vs = <C12 as Prop>::check(&case, &mut c);
+                for (k, v) in c.maxima {
+                    ctx.max(&k, v);
+                }
+                for (k, v) in c.facts {
+                    ctx.fact(&k, v);
+                }
+                if !vs.is_empty() {
+                    fails.push((case, vs));
+                }
+            }
+        }
+        ctx.fact("structural_family_cases", n);
+        (n, fails)
+    }
+
     fn show(case: &Case) -> Value {
         json!({"program": render_plain(&case.lines).text, "extra_passes": case.extra, "features": case.info})
     }
